@@ -3110,8 +3110,10 @@ void notify_no_command () {
   p = command_giver->interactive->default_err_message;
   if (command_giver->interactive->iflags & NOTIFY_FAIL_FUNC)
     {
+      /* an error in the notify_fail() function must not longjmp past restore_command_giver() (the
+       * command_giver save stack is not unwound by restore_context()) nor past free_funp() below */
       save_command_giver (command_giver);
-      v = call_function_pointer (p.f, 0);
+      v = safe_call_function_pointer (p.f, 0);
       restore_command_giver ();
       free_funp (p.f);
       if (command_giver && command_giver->interactive)
